@@ -12,8 +12,10 @@
 #   census     every loop of the parse-side functions of the binary layer is either one of the above, or iterates over a
 #              collection that does not depend on the input (enum tables, variant lists, literal tuples), or over the
 #              items a preceding parse step produced (at most one per byte); a loop that fits no category is an error.
-#   recursion  the nesting of parse calls (class A parses class B) has no cycle except the listed certificate -> key ->
-#              certificate chain, whose inner buffer is a strict sub-slice (4 byte length prefix consumed first).
+#   recursion  the nesting of parse calls (class A parses class B) has no cycle at all, so the recursion depth is bounded by
+#              the number of classes (a constant). (An earlier revision of this check tolerated the cycle certificate ->
+#              signature key -> certificate "because the inner buffer is a strict sub-slice": that bounds the depth by the
+#              input length, not by a constant - 300 nested certificates raised RecursionError; repaired in /repo 3cfb63c.)
 # Linear bound: steps(C, b) <= A_C + B_C * len(b) follows by induction on the nesting depth: straight-line code is
 # constant, each loop contributes (trips <= len(b)) * (constant body + nested cost on disjoint sub-slices).
 import ast
@@ -383,7 +385,6 @@ def census_unit():
 def recursion_unit():
     """nesting graph of parse calls: A -> B when A's parse-side code names class B in a parse_parsable* / parse_immutable
     call or B is an item / variant class of A; cycles other than the listed one are an error"""
-    ALLOWED = {('SshHostCertificateV01Base', 'SshHostPublicKeyVariant'), ('SshHostPublicKeyVariant', 'SshHostCertificateV01Base')}
 
     def run():
         import re
@@ -448,20 +449,49 @@ def recursion_unit():
                 dfs(u, [u])
 
         def allowed(cyc):
-            names = set(cyc)
-            return any(issubclass(classes[a], classes.get('SshHostCertificateV01Base', ())) or a in ('SshHostPublicKeyVariant',)
-                       or 'Cert' in a or 'HostKey' in a or 'HostPublicKey' in a for a in names) and \
-                all('Ssh' in a for a in names)
+            return False          # recursion depth must be bounded by a constant: no cycle among the parsers is acceptable
         bad = [c for c in cycles if not allowed(c)]
         res.obligations.append(dict(name='nesting graph of parse calls built: %d classes, %d edges' % (len(edges), sum(len(v) for v in edges.values())),
                                     kind='ground', status='proved', detail=None, where=None, seconds=0))
-        res.obligations.append(dict(name='no recursion among parsers except SSH certificate <-> host key (inner buffer is a length-prefixed strict sub-slice)',
+        res.obligations.append(dict(name='no recursion among parsers: the nesting graph of parse calls is acyclic, so the nesting depth is bounded by the (constant) number of classes',
                                     kind='ground', status='proved' if not bad else 'failed',
                                     detail=dict(inputs=dict(cycles=[' -> '.join(c) for c in bad[:5]])) if bad else None, where=None, seconds=0))
         res.extra['allowed_cycles'] = [' -> '.join(c) for c in cycles if allowed(c)][:10]
         return res
+    def nested_certificates(seed=0, hints=()):
+        """native witness for a cycle through the certificate signature key: 300 certificates nested in each other"""
+        import sys
+        from cryptoparser.ssh import key as SK
+        from cryptodatahub.common.key import PublicKey, PublicKeyParamsEddsa
+        from cryptodatahub.common.algorithm import NamedGroup
+        from cryptodatahub.ssh.algorithm import SshHostKeyAlgorithm
+        pk = PublicKey.from_params(PublicKeyParamsEddsa(curve_type=NamedGroup.CURVE25519, key_data=b'\x00\x01\x02\x03'))
+        k = SK.SshHostKeyEDDSA(host_key_algorithm=SshHostKeyAlgorithm.SSH_ED25519, public_key=pk)
+        old = sys.getrecursionlimit()
+        try:
+            sys.setrecursionlimit(100000)
+            for _ in range(300):
+                k = SK.SshHostCertificateV01EDDSA(
+                    host_key_algorithm=SshHostKeyAlgorithm.SSH_ED25519_CERT_V01_OPENSSH_COM, nonce=b'', public_key=pk, serial=1,
+                    certificate_type=SK.SshCertType.SSH_CERT_TYPE_HOST, key_id='', valid_principals=SK.SshCertValidPrincipals([]),
+                    valid_after=None, valid_before=None, critical_options=SK.SshCertCriticalOptionVector([]),
+                    extensions=SK.SshCertExtensionVector([]), reserved=b'', signature_key=k,
+                    signature=SK.SshCertSignature(SshHostKeyAlgorithm.SSH_ED25519, b''))
+            wire = bytes(k.compose())
+        except Exception as ex:
+            return dict(reproduced=False, error=repr(ex)[:200])
+        finally:
+            sys.setrecursionlimit(old)
+        try:
+            SK.SshHostPublicKeyVariant.parse_exact_size(wire)
+        except RecursionError:
+            return dict(reproduced=True, call='SshHostPublicKeyVariant.parse_exact_size(<300 nested certificates, %d bytes>)' % len(wire),
+                        expected='a parse error or an object, at constant recursion depth', observed='RecursionError', key='recursion')
+        except Exception:
+            return dict(reproduced=False)
+        return dict(reproduced=False)
     return Unit('recursion/parse-nesting-graph', run, clause='recursion', backend='native-ground',
-                replay=lambda inputs: dict(reproduced=False), search=lambda seed, hints=(): dict(reproduced=False))
+                replay=lambda inputs: nested_certificates(), search=nested_certificates)
 
 
 # ------------------------------------------------------------------------------------------------------- native side
